@@ -315,6 +315,12 @@ func (ex *Exchange[H]) GetRangeByHeight(
 		),
 	)
 	defer span.End()
+	if to <= from.Height()+1 {
+		// nothing to request: (from:to) is empty or inverted
+		err := fmt.Errorf("%w: from %d, to %d", header.ErrRangeMixUp, from.Height(), to)
+		span.SetStatus(codes.Error, err.Error())
+		return nil, err
+	}
 	session := newSession[H](
 		ex.ctx,
 		ex.host,
